@@ -92,7 +92,7 @@ func genC16(seed int64, tier string) *Scenario {
 		if s.path != "" {
 			o.Paths = []string{s.path}
 		}
-		svc := &SvcOpts{TLS: rng.Intn(3) != 0, TLSRedirect: rng.Intn(2) == 0}
+		svc := &SvcOpts{TLS: rng.Intn(3) != 0, TLSRedirect: rng.Intn(2) == 0, StripPrefix: s.path != "" && rng.Intn(2) == 0}
 		if svc.TLS {
 			svc.StaticCert = "good"
 		}
@@ -114,7 +114,7 @@ func genC16(seed int64, tier string) *Scenario {
 	}
 	probe := func(tag string) {
 		for _, h := range []string{"h1.test", "h1.test:8443", "h2.test", "x.w.test", "auto.test", "other.test"} {
-			for _, p := range []string{"/", "/sub/x?a=1&b=%20c", "/only", "/q?x=http://e/;y"} {
+			for _, p := range []string{"/", "/sub/x?a=1&b=%20c", "/only", "/q?x=http://e/;y", "/files/a%2Fb%3Bc/%41?x=1", "/sub/d%2Fe//f?y=%2F"} {
 				for _, t := range []bool{false, true} {
 					op.Ops = append(op.Ops, Op{Kind: "request", Router: router, Host: h, Path: p, TLS: t, Tag: tag})
 				}
@@ -150,16 +150,18 @@ func genC16(seed int64, tier string) *Scenario {
 }
 
 type tlsModel struct {
-	host, path        string
-	tls, redirect     bool
-	static, acme      bool
-	target            string
+	host, path    string
+	tls, redirect bool
+	static, acme  bool
+	target        string
 }
 
 func checkC16(r *RunResult) []Violation {
 	var out []Violation
 	w := r.W
-	add := func(clause, sig, msg string) { out = append(out, Violation{Prop: "C16", Clause: clause, Sig: sig, Msg: msg}) }
+	add := func(clause, sig, msg string) {
+		out = append(out, Violation{Prop: "C16", Clause: clause, Sig: sig, Msg: msg})
+	}
 	model := map[string]*tlsModel{}
 	type item struct {
 		seq int
